@@ -271,8 +271,169 @@ PROPS["C16"] = {
     "harnesses": _c16,
 }
 
+PROPS["C12"] = {
+    "title": "no client input can crash the server (panic-freedom of input kernels)",
+    "files": ["src/types/upload.rs", "parser/src/parse/utils.rs"],
+    "funcs": ["<Upload as InputType>::parse (src/types/upload.rs)", "parse::utils::string_value (parser) - via the C13 harnesses"],
+    "claim": "Upload::parse on the internal marker '#__graphql_file__:' followed by ANY ASCII suffix of 0..3 bytes never panics, accepts "
+             "exactly the suffixes that denote an index and yields that index; every other value kind is rejected without panicking; "
+             "string_value never panics on grammar-valid string content of <= 3 ASCII bytes (Kani checks every panic, overflow, "
+             "out-of-bounds access and unwrap on these paths)",
+    "not_covered": "stack exhaustion in the pest parser and the AST builders, JSON / multipart / WebSocket decoding, HTTP query strings, "
+                   "Upload::value's index into the request's uploads (needs a Context; fixed by reading, see known_findings.txt), "
+                   "request extensions - all inside dependencies or the executor, which cannot be encoded",
+    "assumptions": [],
+    "harnesses": [
+        H("c12::c12_upload_marker0", crate="hm", unwind=20, stubs=[FMT, SLICE], bounds="marker + empty suffix"),
+        H("c12::c12_upload_marker1", crate="hm", unwind=20, stubs=[FMT, SLICE], bounds="marker + every 1-byte ASCII suffix"),
+        H("c12::c12_upload_marker2", crate="hm", unwind=20, stubs=[FMT, SLICE], bounds="marker + every 2-byte ASCII suffix", timeout_s=600),
+        H("c12::c12_upload_marker3", crate="hm", unwind=20, stubs=[FMT, SLICE], bounds="marker + every 3-byte ASCII suffix", timeout_s=900, tiers=("thorough",)),
+        H("c12::c12_upload_other", crate="hm", unwind=20, stubs=[FMT, SLICE], bounds="absent, Null, Boolean(any), String(\"\"), String(1 ASCII byte), List([])"),
+        H("c13::c13_string_ascii1", crate="hp", unwind=3, bounds="every grammar-valid ASCII string content of 1 byte"),
+        H("c13::c13_string_ascii2", crate="hp", unwind=4, cls="L", mem_gb=6, timeout_s=600, bounds="every grammar-valid ASCII string content of 2 bytes"),
+        H("c13::c13_string_ascii3", crate="hp", unwind=5, cls="L", mem_gb=12, timeout_s=900, tiers=("thorough",), bounds="every grammar-valid ASCII string content of 3 bytes"),
+    ],
+}
+
+PROPS["C17"] = {
+    "title": "exported SDL is valid (string-escaping kernels of the exporter)",
+    "files": ["src/registry/export_sdl.rs"],
+    "funcs": ["registry::export_sdl::escape_string (deprecation reasons)", "registry::export_sdl::write_description (single-line mode)"],
+    "claim": "for EVERY ASCII string of 1..2 bytes, escape_string(s) is valid GraphQL string content that denotes s (reference decoder of "
+             "the crate's own string_content rule), so the emitted @deprecated(reason: \"...\") is a string literal for every reason; "
+             "in single-line description mode the emitted line is a string literal denoting the description",
+    "not_covered": "everything structural in export_sdl.rs (type/field/directive printers over the registry), option combinations, block-mode "
+                   "descriptions, re-parsing with parse_schema, non-ASCII text, strings longer than 2 bytes",
+    "assumptions": [],
+    "harnesses": [
+        H("c17::c17_escape1", crate="hm", unwind=6, cls="L", mem_gb=8, timeout_s=900, bounds="every 1-byte ASCII string"),
+        H("c17::c17_escape2", crate="hm", unwind=7, cls="L", mem_gb=16, timeout_s=1500, tiers=("thorough",), bounds="every 2-byte ASCII string"),
+        H("c17::c17_description_single1", crate="hm", unwind=8, cls="L", mem_gb=12, timeout_s=1200, stubs=[SLICE], bounds="every 1-byte ASCII description except LF"),
+        H("c17::c17_description_single2", crate="hm", unwind=9, cls="L", mem_gb=20, timeout_s=1800, tiers=("thorough",), stubs=[SLICE], bounds="every 2-byte ASCII description without LF"),
+    ],
+}
+
+PROPS["C21"] = {
+    "title": "secret arguments never appear in stringified documents (value printer kernel)",
+    "files": ["src/registry/stringify_exec_doc.rs"],
+    "funcs": ["Registry::stringify_input_value (src/registry/stringify_exec_doc.rs)"],
+    "claim": "for a scalar argument (String of any lowercase letter, any one-digit integer, any boolean, null - kind solver-chosen) and a "
+             "one-item list argument, with the secret flag solver-chosen: the output is exactly the mask \"<secret>\" iff the argument is "
+             "marked secret, and the value's GraphQL literal otherwise; a secret value never reaches the output",
+    "not_covered": "input objects with secret fields (needs a populated registry: BTreeMap<String, MetaType> + IndexMap lookups), the "
+                   "selection-set walk (inline fragments without type condition, named fragments), variable default values printed in the "
+                   "operation header - the mechanisms the property names beyond the value printer are NOT decided",
+    "assumptions": [],
+    "harnesses": [
+        H("c21::c21_secret_scalar", crate="hm", unwind=6, cls="L", mem_gb=12, timeout_s=1200, stubs=[RS], bounds="4 scalar kinds x secret flag; letter a..z, digit 0..9, any bool"),
+        H("c21::c21_secret_list", crate="hm", unwind=6, cls="L", mem_gb=12, timeout_s=1200, stubs=[RS], bounds="[String(letter)] x secret flag"),
+    ],
+}
+
+_c06n = ["opt_absent", "opt_null", "opt_number", "opt_wrong_kind", "mu_absent", "mu_null", "mu_number", "vec_single", "vec_list0",
+         "vec_list1", "vec_list_null_item", "vec_absent", "vec_null", "vecopt_list2", "vecopt_absent", "vecopt_null", "optvec_absent",
+         "optvec_null", "optvec_single"]
+PROPS["C06"] = {
+    "title": "resolvers receive exactly the spec-coerced argument values (coercion kernels)",
+    "files": ["src/types/external/optional.rs", "src/types/external/list/vec.rs", "src/types/maybe_undefined.rs", "src/types/external/integers.rs"],
+    "funcs": ["<Option<i32> as InputType>::parse", "<MaybeUndefined<i32> as InputType>::parse", "<Vec<i32> as InputType>::parse",
+              "<Vec<Option<i32>> as InputType>::parse", "<Option<Vec<i32>> as InputType>::parse"],
+    "claim": "for each wrapper type over Int and each enumerated input shape (absent, null, Number(n) for EVERY i64 n, Boolean, String, [], "
+             "[n], [n, null]) InputType::parse returns exactly what the spec's input coercion gives: absent vs null distinguished only by "
+             "MaybeUndefined; a single value becomes a one-element list; a null item in [Int!] is an error; a wrong kind is an error; an "
+             "out-of-range n is an error; null for a non-null list is an error",
+    "not_covered": "the argument/variable plumbing in ContextBase::param_value (variable defaults, argument defaults: needs a Context over a "
+                   "QueryEnv), derive-generated InputObject / OneofObject parsing, dynamic-schema value accessors, 'the resolver is not "
+                   "invoked on error'; lists longer than 2",
+    "assumptions": [],
+    "harnesses": [H("c06::c06_%s" % n, crate="hm", unwind=5, stubs=[FMT], cls="L", mem_gb=6, timeout_s=900,
+                    bounds="shape %s; numbers: every i64 / i32 (absent/null shapes are concrete)" % n) for n in _c06n],
+}
+
+_c01 = [H("c01::c01_leaf_%s" % t, crate="hm", unwind=3, bounds="every value of the type") for t in
+        ["i8", "i16", "i32", "i64", "isize", "u8", "u16", "u32", "u64", "usize", "nzi8", "nzi32", "nzi64", "nzu8", "nzu32", "nzu64"]]
+_c01 += [
+    H("c01::c01_leaf_f64", crate="hm", unwind=3, bounds="every f64 bit pattern"),
+    H("c01::c01_leaf_f64_finite", crate="hm", unwind=3, bounds="every finite f64", assumes=["complement run of the recorded finding: value is finite"]),
+    H("c01::c01_leaf_f32", crate="hm", unwind=3, bounds="every f32 bit pattern"),
+    H("c01::c01_leaf_f32_finite", crate="hm", unwind=3, bounds="every finite f32", assumes=["complement run: value is finite"]),
+    H("c01::c01_leaf_bool_char", crate="hm", unwind=6, bounds="both booleans; every Unicode scalar value"),
+]
+PROPS["C01"] = {
+    "title": "query results follow the spec (LEAF SERIALIZATION ONLY)",
+    "files": ["src/types/external/integers.rs", "src/types/external/non_zero_integers.rs", "src/types/external/floats.rs",
+              "src/types/external/bool.rs", "src/types/external/char.rs"],
+    "funcs": ["<T as ScalarType>::to_value for the built-in scalar types (the value a leaf resolver result puts into the response)"],
+    "claim": "LEAF SERIALIZATION ONLY: for every value of every built-in integer scalar, to_value is the integral Number equal to it; for "
+             "every finite f32/f64 the Number equal to it; Boolean and Char leaves keep their kind - so a leaf never serializes to null or "
+             "to another kind. Recorded finding: non-finite floats serialize to null",
+    "not_covered": "MOST of C01: field collection against the registry, fragment type conditions, @skip/@include pruning "
+                   "(remove_skipped_selection does not finish: drop glue inside Vec::retain), interface/union dispatch, list completion, "
+                   "null propagation, everything the derive macros generate. A green C01 must NOT be read as 'execution follows the spec'",
+    "assumptions": [],
+    "harnesses": _c01,
+}
+
+PROPS["C10"] = {
+    "title": "depth, complexity, recursion and directive limits are enforced exactly (limit kernels)",
+    "files": ["src/schema.rs", "src/validation/visitors/depth.rs", "src/validation/visitors/complexity.rs", "src/validation/visitor.rs"],
+    "funcs": ["schema::check_recursive_depth", "schema::check_max_directives", "DepthCalculate / ComplexityCalculate enter_field, exit_field, "
+              "enter_document, exit_document composed with VisitorCons as in check_rules"],
+    "claim": "check_recursive_depth rejects exactly when the nesting of a chain of up to 2 wrappers (field-with-selection or inline fragment, "
+             "solver-chosen) exceeds the limit, for EVERY usize limit; check_max_directives rejects exactly when a field's directive count "
+             "(0..2, optionally under an inline fragment) exceeds EVERY usize limit; the real depth and complexity visitors, driven by every "
+             "well-nested script of up to 6 field events, report the maximum nesting and the number of fields",
+    "not_covered": "fragment spreads in the limit checks (one HashMap entry: not measured within the cap), the comparison of the measures with "
+                   "the configured limits inside check_rules (needs a registry entry for the root type), custom complexity functions "
+                   "generated by the derive macro, dynamic schemas, 'before any resolver runs'",
+    "assumptions": [],
+    "harnesses": [
+        H("c10::c10_rec_depth_chain1", crate="hm", unwind=5, cls="L", mem_gb=14, timeout_s=1500, stubs=[FMT, RS], bounds="chain of 0..1 wrappers; every usize limit"),
+        H("c10::c10_rec_depth_chain2", crate="hm", unwind=5, cls="L", mem_gb=16, timeout_s=2400, stubs=[FMT, RS], tiers=("thorough",), bounds="chain of 0..2 wrappers; every usize limit"),
+        H("c10::c10_max_directives", crate="hm", unwind=5, cls="L", mem_gb=14, timeout_s=1500, stubs=[FMT, RS], bounds="0..2 directives, nested or not; every usize limit"),
+        H("c10::c10_depth_complexity2", crate="hm", unwind=8, cls="L", mem_gb=12, timeout_s=1200, stubs=[FMT, RS], bounds="every well-nested script of 2 field events"),
+        H("c10::c10_depth_complexity4", crate="hm", unwind=8, cls="L", mem_gb=16, timeout_s=1500, stubs=[FMT, RS], bounds="every well-nested script of 4 field events"),
+        H("c10::c10_depth_complexity6", crate="hm", unwind=8, cls="L", mem_gb=20, timeout_s=2400, stubs=[FMT, RS], tiers=("thorough",), bounds="every well-nested script of 6 field events"),
+    ],
+}
+
+PROPS["C22"] = {
+    "title": "look-ahead lists every sub-field that will be resolved (collector kernel)",
+    "files": ["src/look_ahead.rs"],
+    "funcs": ["look_ahead::filter (the function behind Lookahead::field)"],
+    "claim": "for a selection set of two items - a field and (a field | an inline fragment holding a field | a spread of a known or unknown "
+             "fragment holding a field), names solver-chosen from {a, b} - filter(name) returns exactly the fields of that name that the "
+             "spec's CollectFields visits one level down, in document order",
+    "not_covered": "SelectionField::arguments / directives (variable resolution through a Context), agreement with what the executor later "
+                   "resolves, @skip/@include (removed earlier by remove_skipped_selection), selection sets of more than 2 items, nested "
+                   "fragments",
+    "assumptions": [],
+    "harnesses": [
+        H("c22::c22_lookahead_two", crate="hm", unwind=5, cls="L", mem_gb=14, timeout_s=1500, stubs=[RS], bounds="2 items: field + (field | inline fragment{field}); 3 names from {a,b}"),
+        H("c22::c22_lookahead_spread", crate="hm", unwind=5, cls="L", mem_gb=16, timeout_s=1800, stubs=[RS], bounds="2 items: spread(F|unknown) + field; fragment F{field}; names from {a,b}"),
+    ],
+}
+
+_c33 = []
+for _i in range(9):
+    for _j in range(9):
+        _c33.append(H("c33::c33_typeref_%d_%d" % (_i, _j), crate="hm", unwind=5, timeout_s=900,
+                      tiers=("quick", "thorough") if _i in (0, 1) else ("thorough",),
+                      bounds="supertype shape #%d x subtype shape #%d of [T, T!, [T], [T]!, [T!], [T!]!, [[T]], [[T]!], [[T!]]!]; names solver-chosen from {A,B}" % (_i, _j)))
+PROPS["C33"] = {
+    "title": "dynamic schemas build exactly when the type system is valid (type-compatibility kernel)",
+    "files": ["src/dynamic/type_ref.rs", "src/dynamic/check.rs"],
+    "funcs": ["dynamic::TypeRef::is_subtype (src/dynamic/type_ref.rs) - the relation check_is_valid_implementation applies to field and argument types"],
+    "claim": "sup.is_subtype(sub) equals the spec's IsValidImplementationFieldType(sub, sup) (named types compared by name) for every pair of "
+             "9 type shapes (up to two list levels, all nullability combinations) and every choice of the two names",
+    "not_covered": "check_is_valid_implementation itself (the ORIENTATION of the call was wrong and is fixed, see known_findings.txt, but the "
+                   "harness over Object/Interface does not finish in 18 min: IndexMap insertion), SchemaInner::check as a whole, named "
+                   "covariance via interfaces/unions, input-object cycles, root types, post-build robustness",
+    "assumptions": [],
+    "harnesses": _c33,
+}
+
 NOT_APPLICABLE = {
-    "C01": "not yet claimed (leaf serialization kernels planned, see DESIGN.md section 4)",
     "C02": "dynamic execution: every mechanism (collect_fields, resolve) runs on a built dynamic::Schema and its Registry; schema construction alone exceeds what CBMC finishes (Schema::new > 25 min / 9 GB, DESIGN.md section 3)",
     "C03": "error nulling: the mechanism is add_error/? across nested async resolvers over a live QueryEnv; no unit smaller than the executor exhibits 'nearest nullable ancestor', and the executor cannot be encoded",
     "C04": "merged fields / serial mutations: observable only as resolver invocation order of boxed futures inside resolve_container_inner; needs schema + executor, outside CBMC's reach",
@@ -292,5 +453,5 @@ NOT_APPLICABLE = {
     "C34": "GraphiQL page: the oracle is a JavaScript/HTML tokenizer evaluating the generated page; rendering is askama-generated code over fmt with a dependency's HTML escaper",
     "C35": "GET never mutates: behaviour of five web-framework integrations' extractors (axum/actix/poem/warp/rocket request types, async I/O)",
 }
-for _p in ["C06", "C10", "C12", "C17", "C21", "C22", "C33"]:
+for _p in []:
     NOT_APPLICABLE.setdefault(_p, "claim under construction in this session (harnesses planned in DESIGN.md section 4); listed here until its check is registered")
